@@ -23,13 +23,18 @@ def _o(rng): return rng.choice([None, 0, 0, 1, 3, 7, _i(rng)])
 def _pause(rng): return rng.choice([-5, 0, 1, 2, 749, 750, 751, 1499, 1500, 1501, 2250, 4000, rng.randint(1, 5000)])
 
 def generate(rng, tier):
-    n = 40 if tier == "quick" else 600
+    n = 40 if tier == "quick" else 2500
     cases = []
     def add(h): cases.append({"h": h, "family": h[0]})
     # low-level move: every zero / non-zero pattern of the six numeric arguments (the suppression rule depends on nothing else)
     for mask in range(64):
         vals = [0 if (mask >> b) & 1 else rng.choice([1, -1, _i(rng) or 5]) for b in range(6)]
         add(("L_LM",) + tuple(vals) + (rng.choice([None, 0, 1, 2, 3]),))
+    # moves of both layers: every zero / non-zero pattern of the two distances x durations around the pause chunk size and <= 0
+    for dx in (0, rng.choice([1, -1, _i(rng) or 7])):
+        for dy in (0, rng.choice([1, -1, _i(rng) or 9])):
+            for dur in (0, -5, 1, 750, 751, 1500, 1501, 65535, 100000):
+                add(("L_XY", dx, dy, dur)); add(("E_XY", dx, dy, dur)); add(("L_AB", dx, dy, dur))
     for _ in range(n):
         add(("L_XY", _i(rng), _i(rng), _i(rng))); add(("L_AB", _i(rng), _i(rng), _i(rng)))
         add(("L_LM", rng.choice([0, _i(rng)]), rng.choice([0, _i(rng)]), rng.choice([0, _i(rng)]), rng.choice([0, _i(rng)]), rng.choice([0, _i(rng)]), rng.choice([0, _i(rng)]), rng.choice([None, 0, 1, 2, 3])))
